@@ -51,7 +51,9 @@ Reps(S, bs) == {<<"rep", a, b[1], b[2]>> : a \in {x \in S : ~CanEmpty(x)}, b \in
 (* recovery strategies over leaf parsers *)
 Strats == {<<"via", J("a")>>, <<"via", <<"any">>>>, <<"via", <<"to", J("b"), "k">>>>,
            <<"skipuntil", <<"any">>, J("b")>>, <<"skipuntil", <<"any">>, <<"end">>>>, <<"skipuntil", J("a"), J("b")>>,
-           <<"retry", <<"any">>, J("b")>>, <<"retry", <<"any">>, <<"end">>>>, <<"retry", J("a"), <<"end">>>>}
+           <<"retry", <<"any">>, J("b")>>, <<"retry", <<"any">>, <<"end">>>>, <<"retry", J("a"), <<"end">>>>,
+           \* terminators / skip steps that consume before they fail: every probe has to be undone
+           <<"retry", <<"any">>, JJ("a", "b")>>, <<"skipuntil", JJ("b", "a"), JJ("a", "b")>>}
 
 (* C16: parsers that yield an inner input (the `b` of a.nested_in(b)) *)
 TreeLeaf == <<"tree">>
@@ -309,7 +311,7 @@ MemoTemplates == {<<"let", d, b>> : d \in MemoDefs, b \in MemoBodies}
 (* recovery inside recovery (C08): the inner parser itself emits errors *)
 RInner == {<<"via", J("b")>>, <<"skipuntil", <<"any">>, J("b")>>, <<"retry", <<"any">>, J("b")>>}
 ROuter == {<<"via", J("a")>>, <<"skipuntil", <<"any">>, <<"end">>>>, <<"skipuntil", <<"any">>, J("a")>>,
-           <<"retry", <<"any">>, <<"end">>>>, <<"retry", J("b"), <<"end">>>>}
+           <<"retry", <<"any">>, <<"end">>>>, <<"retry", J("b"), <<"end">>>>, <<"retry", <<"any">>, JJ("!", "!")>>}
 RcvTemplates ==
   {<<"recover", <<"theni", <<"recover", J("a"), i>>, J("!")>>, o>> : i \in RInner, o \in ROuter}
   \cup {<<"collect", <<"rep", <<"recover", <<"theni", <<"recover", J("a"), i>>, J("!")>>, o>>, 0, Inf>>, "vec">> :
